@@ -325,7 +325,7 @@ def gen_encode_string(tier):
     string constant is its BYTE length as u32 LE followed by its UTF-8 bytes - what String::from_le / decode_const_entries read"""
     b = ["let c0: u8 = kani::any(); let c1: u8 = kani::any(); let c2: u8 = kani::any();",
          "kani::assume(c0 >= 0xC2 && c0 <= 0xDF && c1 >= 0x80 && c1 <= 0xBF && c2 >= 0x20 && c2 < 0x7F);",
-         "let x: String = { let mut v = String::new(); v.push(char::from_u32((((c0 & 0x1F) as u32) << 6) | ((c1 & 0x3F) as u32)).unwrap()); v.push(c2 as char); v };",
+         "let x: String = unsafe { String::from_utf8_unchecked(vec![c0, c1, c2]) };      // valid UTF-8 by the assumption above",
          "let mut ctx = CompileCtx::new();",
          "let id = x.compile_const(&mut ctx).unwrap();",
          "assert!(id == 0 && ctx.const_entries.len() == 1, \"VP:constant-ids-wrong\");",
